@@ -209,6 +209,13 @@ func finTerm(fin string) string {
 }
 
 func streamCase(stream []byte, chunks [][]byte, envs []string, fin string) string {
+	var ne [][]byte // the reader contract: a chunk is at least one byte
+	for _, c := range chunks {
+		if len(c) > 0 {
+			ne = append(ne, c)
+		}
+	}
+	chunks = ne
 	return hx.App("PStream", table(stream), hx.ListOf(chunks, hx.Hex), hx.List(envs), finTerm(fin))
 }
 
